@@ -23,7 +23,7 @@ from core.guards import f_and, f_not, f_or
 from core.loader import AnalysisError, ClassInfo, FuncInfo, Repo
 from core.report import Result
 
-from .c16_logic import Enc, equivalent, facts, implies, mentions, satisfiable, strip_wrappers
+from .c16_logic import Enc, equivalent, facts, implies, mentions, prefix_length, satisfiable, strip_wrappers
 from .c16_r1 import RawFlow, seeds
 from .c16_sym import NONE_T, SELF, Event, Run, SymExec, Term, is_term, phi_leaves, show, show_pc, subterms
 from .common import types_of
@@ -196,19 +196,29 @@ class Builder:
                         seen.append(x)
         return seen
 
+    def pending_part(self, t: Term) -> bool:
+        """t is a pending collection P or a non-empty prefix of one (`islice(P, n)`, n >= 1): whatever is picked from it is a pending
+        layer, *the* pending layer when exactly one is pending (judged separately by [exactly one pending layer])."""
+        t = strip_wrappers(t)
+        n = prefix_length(t)
+        while n is not None and n >= 1:
+            t = strip_wrappers(t[2][0])
+            n = prefix_length(t)
+        return n is None and self.pending(t) is not None
+
     def single_pending(self, key: Term) -> bool:
         """key is `P[0]` / `P[-1]` / the only element unpacked from P / `P.pop()` / `next(iter(P))` for a pending collection P."""
-        if key[0] == "index" and key[2] in (("const", 0), ("const", -1)) and self.pending(key[1]) is not None:
+        if key[0] == "index" and key[2] in (("const", 0), ("const", -1)) and self.pending_part(key[1]):
             return True
-        if key[0] == "unpack" and key[3] == 1 and self.pending(key[1]) is not None:
+        if key[0] == "unpack" and key[3] == 1 and self.pending_part(key[1]):
             return True
-        if key[0] == "mcall" and key[2] == "pop" and self.pending(key[1]) is not None:
+        if key[0] == "mcall" and key[2] == "pop" and self.pending_part(key[1]):
             return True
         if key[0] == "call" and key[1] in ("next", "min", "max") and key[2]:
             inner = key[2][0]
             if inner[0] == "call" and inner[1] == "iter" and inner[2]:
                 inner = inner[2][0]
-            return self.pending(inner) is not None
+            return self.pending_part(inner)
         return False
 
     # -- attributes of a name filter that return the name it was built from (`identifier`, `name`)
